@@ -2,8 +2,16 @@
    Directives used: those of ExtrOcamlBasic only (bool, option, unit, list, prod, sumbool, sumor -> OCaml natives;
    andb/orb inlined). nat, positive, N, Z stay as the extracted inductive types. *)
 From Coq Require Import Extraction ExtrOcamlBasic.
-From WF Require Import model.Base model.Shard.
+From WF Require Import model.Base model.Shard model.Strings model.RunState model.Routing model.RoutingStr model.Graph model.Counter model.Launch model.Schedule.
 Extraction Language OCaml.
 Extraction "wfmodel.ml"
   Z.add Z.mul Z.sub Z.opp Z.div Z.modulo Z.eqb Z.ltb Z.leb Z.of_nat Z.to_nat Z.of_N Z.to_N N.of_nat N.to_nat N.add N.eqb Z.compare
-  shard_skip shard_skip_trunc shardset shardset_ok.
+  shard_skip shard_skip_trunc shardset shardset_ok
+  itoa make_role topic_str
+  rs_code rs_of_code rs_valid rs_finished rs_stopped rs_table rs_table_code ctl_target ctl_update lc ctl_documented
+  int32 route_topic_code route_topic route event_of_entry filter_by_fid filter_by_run filter_by_state await_topic await_release
+  route_headers route_type topics_coincide
+  build add_transition is_terminal transitions is_valid starting_nodes terminal_nodes default_start validate_transition edges_of graph_node_ok graph_start_ok has_in has_out
+  c_add c_clear c_get should_pause
+  launch launch_roles role_of
+  sched_wake sched_iter.
